@@ -425,6 +425,10 @@ pub struct TCase {
   items: usize,
   /// 0 none, 1 complete, 2 error
   terminal: u8,
+  /// the downstream below complete_status takes a while in its callbacks
+  /// (a scheduling point inside them)
+  #[serde(default)]
+  slow_handler: bool,
   sched: SchedSpec,
 }
 
@@ -462,6 +466,7 @@ impl Scenario for C14Threads {
       waiter,
       items: rng.below(3),
       terminal: rng.range(1, 2) as u8,
+      slow_handler: rng.below(2) == 0,
       sched: SchedSpec::Seeded { seed: rng.next_u64(), strategy },
     })
     .unwrap()
@@ -470,6 +475,10 @@ impl Scenario for C14Threads {
     let case: TCase = serde_json::from_value(case.clone()).map_err(|e| e.to_string())?;
     if case.items > 6 {
       return Err("too many items".into());
+    }
+    if case.terminal != 1 && case.terminal != 2 {
+      // a producer that never terminates leaves the waiter blocked rightly
+      return Err("the producer must terminate".into());
     }
     let shr = Shared::new();
     let w = World::with_shared(shr.clone());
@@ -483,7 +492,7 @@ impl Scenario for C14Threads {
       match case.waiter {
         TWaiter::WaitForEnd => {
           let (o, st) = subject.clone().complete_status();
-          o.actual_subscribe(Probe(ProbeLog::new(false)));
+          o.actual_subscribe(Probe(ProbeLog::new(case.slow_handler)));
           bodies.push(Box::new(move || {
             CompleteStatus::wait_for_end(st.clone());
             result.lock().unwrap().push(format!("returned closed={}", st.is_closed()));
@@ -607,10 +616,10 @@ impl Scenario for C14Threads {
       nontrivial: rep.multi_choice > 0,
       sim_ns: 0,
       steps: rep.steps,
-      faults: vec![("preemption", rep.preemptions), ("waiter_in_check_register_window", rep.window_hits)],
+      faults: vec![("preemption", rep.preemptions), ("waiter_in_check_register_window", rep.window_hits), ("slow_downstream_handler", (case.slow_handler && case.waiter == TWaiter::WaitForEnd) as u64)],
       reach: vec![("waiter_passed_check_before_register", (rep.window_hits > 0) as u64)],
       resolved: Some(serde_json::to_value(resolved).unwrap()),
-      sample: format!("{:?} items={} terminal={} decisions={:?} => {:?}", case.waiter, case.items, case.terminal, rep.decisions, res),
+      sample: format!("{:?} items={} terminal={} slow_handler={} decisions={:?} => {:?}", case.waiter, case.items, case.terminal, case.slow_handler, rep.decisions, res),
     })
   }
 }
@@ -620,7 +629,7 @@ pub fn check_def() -> PropertyCheck {
     id: "C14",
     scenarios: vec![Box::new(C14Des), Box::new(C14Threads)],
     runs: (300_000, 16_000_000),
-    rule: "DES case = target (to_future, to_stream, collect.to_future, complete_status - optionally with collect / last / reduce / buffer_with_count / take_last / map above it and take(k) below it) x flavour x script of next/error/complete/poll incl. events after the terminal, the consumer dropped (fault) and the subject pruned with retain(); thread case = waiter (wait_for_end | parked to_future | parked to_stream) vs producer (0-2 items then complete/error) under a seeded schedule over lock points and the StatusFuture check/register window; non-trivial = a poll returned Pending before the terminal, an event followed the terminal, the source failed (DES) / a decision had >1 eligible thread (threads)",
+    rule: "DES case = target (to_future, to_stream, collect.to_future, complete_status - optionally with collect / last / reduce / buffer_with_count / take_last / map above it and take(k) below it) x flavour x script of next/error/complete/poll incl. events after the terminal, the consumer dropped (fault) and the subject pruned with retain(); thread case = waiter (wait_for_end | parked to_future | parked to_stream) vs producer (0-2 items then complete/error; the downstream handler optionally contains a scheduling point) under a seeded schedule over lock points and the StatusFuture check/register window; non-trivial = a poll returned Pending before the terminal, an event followed the terminal, the source failed (DES) / a decision had >1 eligible thread (threads)",
     assumptions: vec![
       "futures' mpsc channel and AtomicWaker operations are atomic simulator steps (only one simulated thread runs at a time)",
       "relaxed atomics in CompleteStatus are executed sequentially consistent",
